@@ -23,14 +23,27 @@ EXTENDS Integers, Sequences, FiniteSets
 (* d_urlq      a { p: url(STR) }                                                              *)
 (* d_url       a { p: url(a/b.png) }               (no content)                               *)
 (* d_call      a { p: f(STR, ID) }                                                            *)
+(* d_callx     a { p: ID(10px) ID(1px, x) y }      the content is the function NAME            *)
+(* m_callx     @media screen and (min-width: ID(1px)) { a { p: v } }                          *)
+(* p_ident     a { ID: v }                         the content is the property name            *)
+(* m_feat      @media (ID: 1px) { a { p: v } }     ... the media feature name                  *)
+(* m_type      @media ID and (min-width: 1px) { a { p: v } }    ... the media type             *)
 (* media       @media screen and (min-width: 1px) { .ID { p: STR } }                          *)
 (* supports    @supports (display: grid) { a { p: STR } }                                     *)
 (* fontface    @font-face { font-family: STR; src: url(a.woff) }                              *)
 (* keyframes   @keyframes k { from { p: STR } 50% { p: 1px } to { p: 2px } }                  *)
-(* comment     /* RAW */                           (the content as it is)                      *)
+(* comment     /* RAW */   (content class: the content between blanks)    at top level          *)
+(*             /*TEXT*/    (class "cmt": cps is the whole comment text, possibly empty or        *)
+(*                          multi-line, written exactly between the delimiters)                  *)
+(* c_rule      a {\n  COMMENT\n  p: v;\n}              comment first in a rule                  *)
+(* c_rule_end  a {\n  p: v;\n  COMMENT\n}              comment last in a rule                   *)
+(* c_media     @media screen {\n  COMMENT\n  a { p: v }\n}                                      *)
+(* c_mrule     @media screen {\n  a {\n    COMMENT\n    p: v;\n  }\n}                           *)
+CommentKinds == {"comment", "c_rule", "c_rule_end", "c_media", "c_mrule"}
 Kinds == {"r_class", "r_id", "r_attr", "r_pseudo", "r_desc", "d_ident", "d_str", "d_num", "d_hex", "d_urlq", "d_url",
-          "d_call", "media", "supports", "fontface", "keyframes", "comment"}
-IdSlot  == {"r_class", "r_id", "r_pseudo", "r_desc", "d_ident", "d_call", "media"}
+          "d_call", "d_callx", "m_callx", "p_ident", "m_feat", "m_type", "media", "supports", "fontface", "keyframes"} \cup CommentKinds
+IdSlot  == {"r_class", "r_id", "r_pseudo", "r_desc", "d_ident", "d_call", "media", "d_callx", "m_callx", "p_ident", "m_feat", "m_type"}
+FnKinds == {"d_callx", "m_callx"}          \* the content is a function name: ASCII letters (both cases) and digits
 StrSlot == {"r_attr", "d_str", "d_urlq", "d_call", "media", "supports", "fontface", "keyframes"}
 NoSlot  == {"d_num", "d_hex", "d_url"}
 
@@ -54,6 +67,9 @@ Ranges == [
   newline    |-> {<<10, 10>>},
   tab        |-> {<<9, 9>>},
   space      |-> {<<32, 32>>},
+  digit      |-> {<<48, 57>>},             \* an identifier may start with one (written as an escape)
+  hyphen     |-> {<<45, 45>>},
+  cmt        |-> {<<9, 10>>, <<13, 13>>, <<32, 32>>, <<42, 42>>, <<233, 233>>},     \* comment text: blanks, line breaks, *, a letter
   none       |-> {} ]
 Classes == DOMAIN Ranges
 NonAlnum == {"latin1sym", "bmpsym", "astralsym", "private", "privastral", "combining"}
@@ -64,16 +80,52 @@ Plain(cp) == (cp >= 97 /\ cp <= 122) \/ (cp >= 48 /\ cp <= 57)
 ContentOK(cls, cps) == /\ \A i \in DOMAIN cps : InClass(cls, cps[i]) \/ Plain(cps[i])
                        /\ (cls # "none" => \E i \in DOMAIN cps : InClass(cls, cps[i]))
                        /\ (cls = "quotes2" => (\E i \in DOMAIN cps : cps[i] = 34) /\ (\E i \in DOMAIN cps : cps[i] = 39))
+(* a comment text: any mix of the class's code points and plain letters / digits, also empty *)
+CmtTextOK(cps) == \A i \in DOMAIN cps : InClass("cmt", cps[i]) \/ Plain(cps[i])
 ItemOK(it) == /\ it.k \in Kinds /\ it.cls \in Classes
               /\ (it.k \in NoSlot => it.cls = "none" /\ it.cps = <<>>)
-              /\ (it.k \notin NoSlot => it.cls # "none" /\ it.cps # <<>> /\ ContentOK(it.cls, it.cps))
-              /\ (it.k = "comment" => it.cls \notin {"newline", "control"})
+              /\ (it.cls = "cmt" => it.k \in CommentKinds /\ CmtTextOK(it.cps))
+              /\ (it.k \notin NoSlot /\ it.cls # "cmt" => it.cls # "none" /\ it.cps # <<>> /\ ContentOK(it.cls, it.cps))
+              /\ (it.k \in CommentKinds => it.cls \notin {"newline", "control"})
+              /\ (it.k \in FnKinds => it.cls = "ascii")
 InSubset(items) == items # <<>> /\ \A i \in DOMAIN items : ItemOK(items[i])
 
 (* ---- the relation ------------------------------------------------------------------------------ *)
+(* "Up to blank lines" is about the layout BETWEEN statements.  Inside a comment the text is the meaning: *)
+(* a blank line there is content, and so is a line break before the closing delimiter.  So the outputs are *)
+(* compared as the sequences of their lines without the blank lines that lie outside comments.            *)
 IsBlank(line) == \A i \in DOMAIN line : line[i] \in {32, 9, 13}
-NonBlank(lines) == SelectSeq(lines, LAMBDA ln : ~IsBlank(ln))
-SameLines(l1, l2) == NonBlank(l1) = NonBlank(l2)
+
+(* scanning a line: st = "code" | "cmt" at position j; q = the quote of the string we are in (0: none) *)
+RECURSIVE ScanLine(_, _, _, _)
+ScanLine(line, j, st, q) ==
+  IF j > Len(line) THEN st                                   \* a string does not continue on the next line
+  ELSE LET c == line[j] IN
+    IF st = "cmt" THEN (IF c = 42 /\ j < Len(line) /\ line[j + 1] = 47 THEN ScanLine(line, j + 2, "code", 0)
+                        ELSE ScanLine(line, j + 1, "cmt", 0))
+    ELSE IF c = 92 THEN ScanLine(line, j + 2, st, q)           \* an escape hides the next character
+    ELSE IF q # 0 THEN ScanLine(line, j + 1, st, IF c = q THEN 0 ELSE q)
+    ELSE IF c \in {34, 39} THEN ScanLine(line, j + 1, st, c)
+    ELSE IF c = 47 /\ j < Len(line) /\ line[j + 1] = 42 THEN ScanLine(line, j + 2, "cmt", 0)
+    ELSE ScanLine(line, j + 1, st, 0)
+
+(* flag per line: 1 iff the line starts inside a comment *)
+RECURSIVE Starts(_, _, _, _)
+Starts(lines, i, st, acc) ==
+  IF i > Len(lines) THEN acc
+  ELSE Starts(lines, i + 1, ScanLine(lines[i], 1, st, 0), Append(acc, IF st = "cmt" THEN 1 ELSE 0))
+InComment(lines) == Starts(lines, 1, "code", <<>>)
+
+RECURSIVE DropLead(_)
+DropLead(line) == IF line # <<>> /\ line[1] \in {32, 9} THEN DropLead(Tail(line)) ELSE line
+
+(* the compared form of an output; Dev: see the deviations below *)
+Compared(lines, Dev) ==
+  LET inc == InComment(lines)
+      idx == SelectSeq([i \in 1..Len(lines) |-> i], LAMBDA i : inc[i] = 1 \/ ~IsBlank(lines[i]))
+  IN [k \in 1..Len(idx) |-> IF inc[idx[k]] = 1 /\ "comment_reindent_grows" \in Dev THEN DropLead(lines[idx[k]]) ELSE lines[idx[k]]]
+SameLinesD(l1, l2, Dev) == Compared(l1, Dev) = Compared(l2, Dev)
+SameLines(l1, l2) == SameLinesD(l1, l2, {})
 
 (* r1, r2: [st |-> status, lines |-> lines of the output] *)
 RoundTripOK(r1, r2) == r1.st = "ok" /\ r2.st = "ok" /\ SameLines(r1.lines, r2.lines)
@@ -90,7 +142,12 @@ Has(it, cp) == \E i \in DOMAIN it.cps : it.cps[i] = cp
 (* The first predicts that the re-read fails with an error; the second that it fails or - when the rest   *)
 (* of the text happens to parse (inside call arguments) - prints different text.  Both require their       *)
 (* trigger in out1 (a printer that stopped escaping quotes is a different defect and is reported).         *)
-Deviations == {"css_reader_ident_nonalnum", "css_reader_escaped_quote"}
+(* "comment_reindent_grows": Comment::write (css/comment.rs) re-indents the continuation lines of a       *)
+(*   comment relative to what it guesses their indentation was; for lines that do not start with `*` the  *)
+(*   guess is off by the block's indentation, so a multi-line comment nested in a block gets deeper on     *)
+(*   every pass: `  /* a\n  b */` reads back as `  /* a\n    b */`.  Scope: the leading blanks of lines  *)
+(*   that start inside a comment; under the deviation they are not compared.  Everything else is.          *)
+Deviations == {"css_reader_ident_nonalnum", "css_reader_escaped_quote", "comment_reindent_grows"}
 InScope(d, it) ==
   IF d = "css_reader_ident_nonalnum" THEN it.k \in IdSlot /\ it.cls \in NonAlnum
   ELSE IF d = "css_reader_escaped_quote" THEN \/ it.k = "d_urlq" /\ Has(it, 34)
